@@ -50,6 +50,8 @@ def run(ctx, rep) -> None:
         elif verdicts[t['id']]['verdict'] != 'accepted':
             rep.violation(f'{t["id"]}: {verdicts[t["id"]]["verdict"]}', payload=t)
         elif verdicts[t['id']].get('family', 'none') != 'none':
-            rep.classified(verdicts[t['id']]['family'], f'{t["id"]}: the idle period was restarted by an event that is not a change '
-                           f'(starts at {[e["t"] for e in t["events"] if e["ev"] == "start"]})', payload=t)
+            fam_ = verdicts[t['id']]['family']
+            rep.classified(fam_, f'{t["id"]}: ' + ('the idle period was restarted by an event that is not a change' if fam_ == 'F6' else
+                                                  'the timer task ended when the PATCH of its result was refused') +
+                           f' (starts at {[e["t"] for e in t["events"] if e["ev"] == "start"]})', payload=t)
     rep.sample({'scenario': traces[3]['scenario'], 'trace': traces[3]['events'][:14]})
